@@ -48,6 +48,8 @@ func installPause() {
 			}
 		}
 	})
+	pauseInstalled.Store(true)
+	installTap() // file-system steps are pause points too ("fs.fsync", "fs.rename", ...)
 }
 
 // ---------------------------------------------------------------------------
